@@ -101,7 +101,7 @@ theorem parse_marshal (o : Options) (g : GenFull) (h : genFull o f t = .ok g)
   obtain ⟨c, hc, ht, hv, hname, _⟩ := C04.string_primary o ha e hd
   have hm : g.marshal e = c.name := by
     rw [hname]; subst hg; rfl
-  have hcase : caseOf ts (Value.ofConst c) ∈ g.base.cases := by
+  have hcase : caseOf ts (sortedValues f t.name).head? (Value.ofConst c) ∈ g.base.cases := by
     subst hg
     exact List.mem_map.mpr ⟨_, mem_sortedValues.mpr ⟨c, hc, ht, rfl⟩, rfl⟩
   have := parse_of_case g.base hn _ hcase (Dyn.ofString c.name) (by simp [caseOf, Value.ofConst])
